@@ -172,27 +172,28 @@ class SymSocket:
         return out
 
 
-def _pair(inp, recvbuf):
+def _pair(inp, recvbuf, sendbuf=8192):
     a, b = SymSocket(inp, 'a'), SymSocket(inp, 'b')
     a.peer, b.peer = b, a
     got, disc = [], []
     pa, pb = FakePoller(), FakePoller()
-    ca = tc.TcpConnection(pa, socket=a, keepalive=None, recvBufferSize=recvbuf)
+    # a small configured send buffer: what is pending in user space may exceed any multiple of it (a big entry is written in one go)
+    ca = tc.TcpConnection(pa, socket=a, keepalive=None, recvBufferSize=recvbuf, sendBufferSize=sendbuf)
     cb = tc.TcpConnection(pb, onMessageReceived=got.append, onDisconnected=lambda: disc.append(1), socket=b, keepalive=None, recvBufferSize=recvbuf)
     return a, b, ca, cb, got, disc
 
 
-@obligation('T1', props=('C13', 'C11'), quick=[dict(k=1, sends=2, reads=2), dict(k=2, sends=1, reads=2), dict(k=2, sends=2, reads=1), dict(k=3, sends=1, reads=1)],
-            thorough=[dict(k=1, sends=3, reads=3, lmax=LMAX), dict(k=2, sends=2, reads=2, lmax=LMAX), dict(k=3, sends=2, reads=1), dict(k=3, sends=1, reads=2), dict(k=4, sends=1, reads=1)],
+@obligation('T1', props=('C13', 'C11'), quick=[dict(k=1, sends=2, reads=2), dict(k=2, sends=1, reads=2), dict(k=2, sends=2, reads=1), dict(k=3, sends=1, reads=1), dict(k=1, sends=1, reads=1, sendbuf=1)],
+            thorough=[dict(k=2, sends=1, reads=1, sendbuf=1), dict(k=1, sends=3, reads=3, lmax=LMAX), dict(k=2, sends=2, reads=2, lmax=LMAX), dict(k=3, sends=2, reads=1), dict(k=3, sends=1, reads=2), dict(k=4, sends=1, reads=1)],
             stubs=_STUBS,
             bounds='k<=4 messages with encoded length 1..20000 (quick) / 1..100000 (thorough) each (below, equal to and above the symbolic receive buffer size 1..65536); <=3 send() calls with symbolic short-write/EAGAIN outcome, <=3 read events of <=2 symbolic fragments, then drain')
-def T1(inp, k, sends, reads, lmax=LQUICK):
+def T1(inp, k, sends, reads, lmax=LQUICK, sendbuf=8192):
     """round trip through two real TcpConnection objects: whatever the partial-send and fragmentation pattern, the receiver's
     callback sequence is a prefix of the sent sequence (same order, each once, equal messages) and, once everything is flushed
     and read, equals it; no exception, no disconnect; leftover bytes are a proper prefix of the next frame."""
     codec = install(inp)
     R = inp.int('recvbuf', 1, 65536)
-    a, b, ca, cb, got, disc = _pair(inp, R)
+    a, b, ca, cb, got, disc = _pair(inp, R, sendbuf)
     msgs = []
     for i in range(k):
         codec.lengths[i] = inp.int('L%d' % i, 1, lmax)
